@@ -34,6 +34,8 @@ CLAIMED = {
                 note="FSEventsEmitter.queue_events (flag-coalescing table) is not applicable - relative to Apple's semantics. E4 (struct/ctypes reads), E8 (record layouts), offsets monotone by assumed induction. Two known findings on Windows (removed directory typed as file; rename halves split across reads) are listed in known_findings.json. 'Replaying reproduces the tree' is not decided.", ref="4/C20"),
     "C18": dict(text="PARTIAL. EventDebouncer under its Condition (rely/guarantee, ghost handled/delivered): while not stopped _events = handled[delivered:]; the callback runs only in a lock hold where should_keep_running() held, with exactly the pending batch in arrival order, nothing twice, nothing after stop(); untimed wait guarded by its predicate; handle_event/stop notify. ProcessWatcher.run: callback at most once, only after the child exited, only if not stopped, only timed waits. AutoRestartTrick._stop_process/_start_process/_restart_process/stop: sequential contracts over a ghost process table.",
                 note="E7, E11 (process table). NOT decided: 'never more than one child alive' across the watcher and event threads (process/process_watcher are not lock-protected), debounce timing beyond 'delivered after a timed wait expired', thread exit on stop() (liveness), ShellCommandTrick (battery only).", ref="4/C18"),
+    "C12": dict(text="PARTIAL (typestate). Ghost per-descriptor open flags: os.read/os.write/os.close/poll/inotify_rm_watch require 'open'; lock invariant J of Inotify (not released => all three open; released => _closed; a read in flight is never released under its feet) proved at every release of close()/read_events(); close() releases only if no read is in flight and is idempotent; the reader releases in its second section iff closed meanwhile; Inotify.__init__ closes everything it opened when watch installation raises; InotifyBuffer starts no thread for a failed watch, close() = flag, wake-ups, join; emitter stop idempotent.",
+                note="E7/E8 (poll/os.read on open descriptors do not raise; os.pipe failure not injected). Rely of the reader = close()'s proved guarantee. Descriptor/thread counts over real cycles are measured only by the bounded battery. inotify_add_watch after a concurrent close() (third section of read_events) is outside the statement's list and only recorded.", ref="4/C12"),
 }
 
 NOT_APPLICABLE = {
